@@ -43,6 +43,7 @@ def tier2(tier, rng):
 
 
 TIER1 = ("Simpleloop", "solve_simpleloop_model")
+TIER1_PRIM = ("SimpleloopPrim", "solve_simpleloop_model_prim")
 
 
 def tier1_problems(tier, rng):
